@@ -1034,7 +1034,9 @@ func runHistory(c *hx.Ctx, r *hx.Rng, idx int, workers int) error {
 	} else {
 		// the shard may be left with locks held: close it if that ends soon, otherwise abandon it
 		closed := make(chan struct{})
-		go func() { hx.Safe(func() { compMu.Lock(); defer compMu.Unlock(); sh.Close() }); close(closed) }()
+		// (not under compMu: a Close that never returns must not block every later recovery; the shard
+		// was detached from the compactor when it was opened)
+		go func() { hx.Safe(func() { sh.Close() }); close(closed) }()
 		select {
 		case <-closed:
 		case <-time.After(10 * time.Second):
